@@ -12,7 +12,7 @@ import ExaModel.Driver.Util
 
    flow enc <v6> <vpn> <rd hex|-> <comp>*       -> ok <hex> wf=<0|1>
    flow dec <v6> <vpn> <hex>                    -> ok <rd|-> <rest> <comp>*     | err <code>
-   flow exaenc <rd hex|-> <tcomp>*              -> ok <v6> <hex>                | raise <kind>
+   flow exaenc <hint6> <rd hex|-> <tcomp>*      -> ok <v6> <hex>                | raise <kind>   (hint6: an IPv6-only keyword is present)
    flow exadec <v6> <vpn> <hex>                 -> ok <rd|-> <rest> <rawcomp>*  | invalid <rest> | raise
    flow torule <v6> <tcomp>*                    -> ok <comp>*
    flow act <taction>*                          -> ok <hex>,<hex>…  (one 8-byte community per action, text order) | refuse
@@ -143,13 +143,13 @@ def flowLine (st : Unit) (ws : List String) : Unit × String :=
       | .ok (x, rest) => (st, s!"ok {match x.rd with | some rd => toHex rd | none => "-"} {toHex rest} {showRule x.rule}")
       | .error e => (st, s!"err {showErr e}")
     | _, _, _ => bad
-  | "exaenc" :: rd :: cs =>
-    match rd? rd, cs.mapM tcomp? with
-    | some rd, some t =>
-      match exaPack Exa.Generated.FlowTable.sizeOf rd t with
+  | "exaenc" :: h6 :: rd :: cs =>
+    match bool? h6, rd? rd, cs.mapM tcomp? with
+    | some h6, some rd, some t =>
+      match exaPack Exa.Generated.FlowTable.sizeOf h6 rd t with
       | .ok (v6, bs) => (st, s!"ok {b2n v6} {toHex bs}")
       | .error e => (st, s!"raise {showExaErr e}")
-    | _, _ => bad
+    | _, _, _ => bad
   | ["exadec", v6, vpn, hex] =>
     match bool? v6, bool? vpn, hexBytes? hex with
     | some v6, some vpn, some bs =>
